@@ -13,8 +13,7 @@ for m in sorted(pkgutil.iter_modules(props.__path__), key=lambda m: m.name):
     try:
         mod = importlib.import_module(f"props.{m.name}")
     except Exception as e:
-        print("skip", m.name, e, file=sys.stderr)
-        continue
+        sys.exit(f"cannot import props.{m.name}: {e} -- run with PYTHONPATH=/repo:/verif:/verif/harness/stubs /venv/bin/python; MANIFEST.json left unchanged")
     meta = getattr(mod, "META", None)
     if not meta or meta["id"] not in ids or meta.get("disabled"):
         continue
